@@ -49,6 +49,8 @@ class Roles:
         k = e.get("k")
         if depth > 6:
             return "deep"
+        if k == "try":
+            return self.role(e["e"], depth)
         if k == "path":
             b = self.sc.resolve(e)
             if b is None:
@@ -77,11 +79,16 @@ class Roles:
             if self.syn is not None and "::" not in f and depth < 4:
                 hs = [h for h in self.syn.fns if h["name"] == f and h["mod"] == self.fn["mod"] and h.get("body") and not h.get("impl_of")]
                 if len(hs) == 1:
-                    from .common import tail_expr
+                    from .common import tail_expr, walk as _walk
+                    # a helper that chooses between several results (early returns, or an if / match in tail position) is a conditional value
+                    if any(n_.get("k") == "return" for n_ in _walk(hs[0]["body"])):
+                        return "conditional"
                     t = tail_expr(hs[0]["body"])
                     if t is not None:
                         r = Roles(hs[0], self.syn).role(t, depth + 1)
-                        if not r.startswith("var:") and r not in ("?", "deep", "conditional"):
+                        if r == "conditional":
+                            return r
+                        if not r.startswith("var:") and r not in ("?", "deep"):
                             return r
             return "call:" + f
         if k == "mcall":
